@@ -36,27 +36,30 @@ def ptr_exprs(depth):
 
 
 def straightline_pointer_programs(max_ops):
-    """bounded-exhaustive: two pointer locals, every initialisation pair, every sequence of <= max_ops
-    assignments among {named object, copy of the other local, .next of a named object / of a local,
-    ternary-selected object}, then a read through either local.  Exercises the per-block tracking of which
-    local still designates a statically known object."""
+    """bounded-exhaustive: two pointer locals, five initialisation pairs, every sequence of <= max_ops steps among
+    {assignment from a named object / the other local / .next of a named object or of a local / a ternary-selected
+    object, and an intermediate *read* through either local (s = s ^ p.ival)}, then a final read through either local.
+    Exercises the per-block tracking of which local still designates a statically known object and the placement /
+    de-duplication of observers when a local is re-pointed between two reads."""
     a, b, c = ('obj', 'a'), ('obj', 'b'), ('obj', 'c')
-    lp, lq = ('local', 'p'), ('local', 'q')
+    lp, lq, ls = ('local', 'p'), ('local', 'q'), ('local', 's')
     tern = ('tern', P('a', 'flag'), b, c)
-    init_q = [a, P('b', 'next'), tern]
-    init_p = [a, lq, P('b', 'next')]
+    inits = [(a, a), (P('b', 'next'), a), (tern, a), (a, lq), (P('b', 'next'), P('b', 'next'))]
     ops = [('p', a), ('p', b), ('p', lq), ('q', lp), ('q', c), ('p', P('a', 'next')), ('q', P('b', 'next')),
-           ('p', ('prop', lq, 'next')), ('q', ('prop', lp, 'next')), ('q', tern)]
+           ('p', ('prop', lq, 'next')), ('q', ('prop', lp, 'next')), ('q', tern), ('read', 'p'), ('read', 'q')]
     out = []
-    for iq in init_q:
-        for ip in init_p:
-            for n in range(0, max_ops + 1):
-                for seq in itertools.product(ops, repeat=n):
-                    for rd in ('p', 'q'):
-                        body = [('let', 'let', 'q', None, iq), ('let', 'let', 'p', None, ip)]
-                        body += [('assign', v, e) for v, e in seq]
-                        body.append(('return', ('prop', ('local', rd), 'ival')))
-                        out.append(D.Program('binding', 'int', body, tag='ptr-straightline'))
+    for iq, ip in inits:
+        for n in range(0, max_ops + 1):
+            for seq in itertools.product(ops, repeat=n):
+                for rd in ('p', 'q'):
+                    body = [('let', 'let', 'q', None, iq), ('let', 'let', 'p', None, ip), ('let', 'let', 's', None, ('lit', 'int', 0))]
+                    for v, e in seq:
+                        if v == 'read':
+                            body.append(('assign', 's', ('bin', '^', ls, ('prop', ('local', e), 'ival'))))
+                        else:
+                            body.append(('assign', v, e))
+                    body.append(('return', ('bin', '^', ls, ('prop', ('local', rd), 'ival'))))
+                    out.append(D.Program('binding', 'int', body, tag='ptr-straightline'))
     return out
 
 
